@@ -152,9 +152,20 @@ def typed_parameter_programs():
     return out
 
 
+# functions whose names differ only in the type sigil are different functions, and so are their parameters: one calls the other and
+# reads its own parameter again afterwards
+SIGIL_PROGRAMS = [
+    ['10 DEF FNA(X)=X*2', '20 DEF FNA$(X)=STR$(FNA(X+1))+STR$(X)', '30 X=7', '40 PRINT FNA$(1);X'],
+    ['10 DEF FNS%(N)=N*N', '20 DEF FNS(N)=FNS%(N+1)-N', '30 FOR I=1 TO 3:PRINT FNS(I);:NEXT'],
+    ['10 DEF FNQ#(A,B)=A+B/2', '20 DEF FNQ!(A,B)=FNQ#(B,A)*10+A', '30 PRINT FNQ!(1,2);FNQ#(3,4)'],
+    ['10 DEF FNT$(S$)=S$+"!"', '20 DEF FNT(S$)=LEN(FNT$(S$+"ab"))+LEN(S$)', '30 PRINT FNT("x");FNT$("y")'],
+    ['10 DEF FNV(P)=P+1', '20 DEF FNV%(P)=FNV(P*10)+P', '30 DEF FNV!(P)=FNV%(P+1)*100+P', '40 PRINT FNV!(1)'],
+]
+
+
 def gen(tier, rng):
     cases = []
-    for prog in typed_parameter_programs():
+    for prog in typed_parameter_programs() + SIGIL_PROGRAMS:
         cases.extend(semcheck.cases_for(prog, [], rng, quanta=(5000,)))
     n = 400 if tier == "quick" else 15000
     for _ in range(n):
